@@ -348,7 +348,10 @@ func (cc *chainCtx) decomposeOr(v ssa.Value) (int64, []orItem, bool) {
 					b1, its1, ok1 := cc.decomposeOr(x.X)
 					b2, its2, ok2 := cc.decomposeOr(stripConv(x.Y))
 					if ok1 && ok2 {
-						out := append(its1, orItem{Mask: b2})
+						out := its1
+						if b2 != 0 {
+							out = append(out, orItem{Mask: b2})
+						}
 						return b1, append(out, its2...), true
 					}
 				}
